@@ -105,6 +105,15 @@ def run(ctx: Ctx):
     for fmt, ext in (("hdf5", "h5"), ("fits", "fits")):
         for t in range(n_io):
             data, axes, names = rand_grid(rng, fmt)
+            if t < 4:
+                # directed: axis names that differ only in letter case / surrounding blanks / coincide with a reserved FITS name,
+                # on axes of EQUAL length with different values (a mix-up of the axes would otherwise change the shape and be loud)
+                names = [["a", "A"], ["E", "e", "z"], ["x", " x"], ["PRIMARY", "data"]][t]
+                k_ = int(rng.integers(2, 5))
+                shape = (k_,) * len(names)
+                data = rng.standard_normal(shape)
+                axes = [np.sort(rng.uniform(-10, 10, k_)) + 100.0 * j_ for j_ in range(len(names))]
+                ctx.count("io_directed_similar_names")
             g = NssGrid(data, axes, names)
             p = os.path.join(tmp, f"g{t}.{ext}")
             if os.path.exists(p):
